@@ -366,24 +366,38 @@ impl World {
             "ok" => {
                 // synthetic success of an external callee: it keeps the value / tokens
                 self.ensure_account(&recipient);
-                {
+                let enough = {
+                    let from = self.bm.state.accounts.get(&call.from).unwrap();
+                    // several transfers of the same token are checked cumulatively below
+                    from.egld_balance >= call.call_value
+                };
+                let mut ok = enough;
+                if ok {
+                    let snapshot = self.bm.state.accounts.get(&call.from).unwrap().clone();
                     let from = self.bm.state.accounts.get_mut(&call.from).unwrap();
-                    assert!(from.egld_balance >= call.call_value, "synthetic delivery: insufficient EGLD");
                     from.egld_balance -= &call.call_value;
                     for t in &info.transfers {
                         let bal = from.esdt.get_esdt_balance(&t.token_identifier, t.nonce);
-                        assert!(bal >= t.value, "synthetic delivery: insufficient ESDT");
+                        if bal < t.value {
+                            ok = false;
+                            break;
+                        }
                         from.esdt.set_esdt_balance(t.token_identifier.clone(), t.nonce, &(bal - &t.value), Default::default());
                     }
+                    if !ok {
+                        *from = snapshot;
+                    }
                 }
-                {
+                if ok {
                     let to = self.bm.state.accounts.get_mut(&recipient).unwrap();
                     to.egld_balance += &call.call_value;
                     for t in &info.transfers {
                         to.esdt.increase_balance(t.token_identifier.clone(), t.nonce, &t.value, Default::default());
                     }
+                    TxResult { result_status: 0, result_values: arg_list(how.get(1).copied().unwrap_or("-")), ..Default::default() }
+                } else {
+                    TxResult { result_status: 7, result_message: "insufficient funds".into(), ..Default::default() }
                 }
-                TxResult { result_status: 0, result_values: arg_list(how.get(1).copied().unwrap_or("-")), ..Default::default() }
             }
             "fail" => TxResult { result_status: 4, result_message: "synthetic failure".into(), ..Default::default() },
             other => panic!("deliver: unknown outcome {other}"),
